@@ -191,6 +191,13 @@ def main():
                 ctx.boost = max(ctx.boost, 4)
         except Exception:
             cov['regenerated_codec'] = {'status': 'internal: ' + traceback.format_exc()[-300:]}
+    if prop in ('C01', 'C02', 'C05', 'C11', 'C12', 'C13', 'C18') and not replay:
+        try:
+            cov['regenerated_reader_and_hiding'] = srctie2.linked_vec_check(REPO, os.path.join(workdir, 'linkedvec'))
+            if cov['regenerated_reader_and_hiding'].get('status') != 'holds':
+                ctx.boost = max(ctx.boost, 4)
+        except Exception:
+            cov['regenerated_reader_and_hiding'] = {'status': 'internal: ' + traceback.format_exc()[-300:]}
     cov['source_tie_note'] = ('tables/constants (source_tie) and decoder control flow (source_tie_functions) are regenerated from '
                               'the source text on every run and checked against the Model by the kernel; a tie that no longer holds '
                               'is not a violation by itself (the differential correspondence decides), it multiplies the search budget')
